@@ -1,5 +1,5 @@
 CONSTANTS Budget = 14 Sim = TRUE Start = "FILE"
-  Masked = {"todo_operand", "p_neg", "p_as_var"}
+  Masked = {"todo_operand", "p_neg"}
 SPECIFICATION Spec
 INVARIANTS Balanced
 CHECK_DEADLOCK FALSE
